@@ -160,8 +160,20 @@ def render_listener(prog, role):
     return f"class {name}:\n" + "\n".join(body) + "\n"
 
 
-def _names(lst):
-    return "[" + ", ".join(repr(x) for x in lst) + "]"
+def style_of(prog, name):
+    """How a machine-defined callback is attached: by name (default), by callable object, by decorator."""
+    m = prog["cbs"].get("machine." + name)
+    return (m or {}).get("style", "name")
+
+
+def _names(lst, prog=None):
+    out = []
+    for x in lst:
+        st = style_of(prog, x) if prog is not None and x.isidentifier() else "name"
+        if st == "decorator":
+            continue
+        out.append(x if st == "callable" else repr(x))
+    return "[" + ", ".join(out) + "]"
 
 
 def render_transition(prog, t, assign=None):
@@ -172,8 +184,8 @@ def render_transition(prog, t, assign=None):
     if t.get("internal"):
         kw.append("internal=True")
     for g in GROUPS:
-        if t.get(g):
-            kw.append(f"{g}={_names(t[g])}")
+        if t.get(g) and _names(t[g], prog) != "[]":
+            kw.append(f"{g}={_names(t[g], prog)}")
     call = f"{src}.to({dst}, {', '.join(kw)})"
     if assign:
         return f"    {assign} = {call}\n"
@@ -185,6 +197,11 @@ def render_machine(prog, base_name=None):
     base = base_name or "StateMachine"
     lines.append(f"class {pyname(prog)}({base}):")
     lines.append("    _sim_is_machine = True")
+    # callbacks attached as callable objects must exist before the statements that use them
+    for cbid in sorted(prog["cbs"]):
+        if cbid.startswith("machine.") and prog["cbs"][cbid].get("style") == "callable" \
+                and not prog["cbs"][cbid].get("inherited"):
+            lines.append(render_cb(prog, cbid).rstrip("\n"))
     for s in prog["states"]:
         if s.get("inherited"):
             continue
@@ -197,10 +214,10 @@ def render_machine(prog, base_name=None):
             kw.append("final=True")
         if s.get("value", None) is not None:
             kw.append(f"value={vsrc(s['value'])}")
-        if s.get("enter"):
-            kw.append(f"enter={_names(s['enter'])}")
-        if s.get("exit"):
-            kw.append(f"exit={_names(s['exit'])}")
+        if s.get("enter") and _names(s["enter"], prog) != "[]":
+            kw.append(f"enter={_names(s['enter'], prog)}")
+        if s.get("exit") and _names(s["exit"], prog) != "[]":
+            kw.append(f"exit={_names(s['exit'], prog)}")
         lines.append(f"    {s['id']} = State({', '.join(kw)})")
     body = []
     for t in prog["trans"]:
@@ -225,6 +242,21 @@ def render_machine(prog, base_name=None):
                 line = line.replace(f".to({t['dst']},", f".to({base_name}.{t['dst']},", 1)
             body.append(line)
     lines.append("".join(body).rstrip("\n"))
+    # decorator-attached callbacks: @<event>.<group> / @<state>.enter|exit right after the declarations
+    for cbid in sorted(prog["cbs"]):
+        meta = prog["cbs"][cbid]
+        if cbid.startswith("machine.") and meta.get("style") == "decorator" and not meta.get("inherited"):
+            name = cbid.split(".", 1)[1]
+            decos = []
+            for t in prog["trans"]:
+                for g in GROUPS:
+                    if name in t.get(g, []):
+                        decos.append(f"    @{t['assign']}.{g}")
+            for st in prog["states"]:
+                for g in ("enter", "exit"):
+                    if name in st.get(g, []):
+                        decos.append(f"    @{st['id']}.{g}")
+            lines.append("\n".join(decos) + "\n" + render_cb(prog, cbid).rstrip("\n"))
     for pr in prog.get("probes", []):
         full = f"{prog['name']}/machine.{pr['name']}"
         if pr["kind"] == "property":
@@ -235,7 +267,8 @@ def render_machine(prog, base_name=None):
         else:
             lines.append(f"    def {pr['name']}(self, *a, **k):\n        return SIM.probe({full!r}, self)")
     for cbid in sorted(prog["cbs"]):
-        if cbid.startswith("machine.") and not prog["cbs"][cbid].get("inherited"):
+        if cbid.startswith("machine.") and not prog["cbs"][cbid].get("inherited") \
+                and prog["cbs"][cbid].get("style", "name") == "name":
             lines.append(render_cb(prog, cbid).rstrip("\n"))
     return "\n".join(lines) + "\n"
 
